@@ -372,6 +372,42 @@ def failure_of(v):
     return k.split(":")[0]
 
 
+def structure_programs():
+    a, b, c, f, k, x = (sym(n) for n in "abcfkx")
+    add = lambda p, q: call("add-ints", p, q)
+    ints = coll([[tv("int", 1), tv("int", 10)], [tv("int", 2), tv("int", 20)], [tv("int", 3), tv("int", 30)]])
+    return [
+        ("partial-made-outside-completed-inside-then-own-parameter",
+         call(lam(["f"], call(lam(["x"], add(call("call", f, INT(2)), x)), INT(10))), call("add-ints", INT(1)))),
+        ("partial-made-outside-completed-inside-own-parameter-first",
+         call(lam(["f"], call(lam(["x"], add(x, call("call", f, INT(2)))), INT(10))), call("add-ints", INT(1)))),
+        ("partial-and-value-as-two-parameters",
+         call(lam(["f", "x"], add(call("call", f, INT(2)), x)), call("add-ints", INT(1)), INT(10))),
+        ("lambda-partially-applied-then-completed", call(call(lam(["a", "b"], add(a, b)), INT(1)), INT(2))),
+        ("lambda-applied-in-three-steps",
+         call(call(call(lam(["a", "b", "c"], add(a, add(b, c))), INT(1)), INT(2)), INT(3))),
+        ("argumentless-lambda-as-second-argument", add(INT(10), call(lam([], INT(2))))),
+        ("argumentless-lambda-returned-by-a-call-as-second-argument",
+         add(INT(10), call(call(lam(["a"], lam([], a)), INT(7))))),
+        ("closure-returned-and-applied", call(call(lam(["a"], lam(["b"], add(a, b))), INT(1)), INT(2))),
+        ("closure-returned-through-call", call("call", call("call", lam(["a"], lam(["b"], add(a, b))), INT(1)), INT(2))),
+        ("map-with-variable-of-enclosing-lambda",
+         call(lam(["k"], call("map", ints, lam(["x"], add(k, add(x, INT(0)))))), INT(1000))),
+        ("map-parallel-with-variable-of-enclosing-lambda",
+         call(lam(["k"], call("map-parallel", ints, lam(["x"], add(k, add(x, INT(0)))))), INT(1000))),
+        ("map-of-map-with-outer-variable",
+         call(lam(["k"], call("map", ints, lam(["x"], call("map", ints, lam(["a"], add(a, add(x, k))))))), INT(5))),
+        ("map-parallel-returning-lazy-collections",
+         call("map-parallel", ints, lam(["x"], call("map", ints, lam(["a"], add(a, x)))))),
+        ("filter-with-partial-made-outside",
+         call(lam(["f"], call("filter", ints, lam(["x"], call("gt", call("call", f, x), INT(15))))), call("add-ints", INT(1)))),
+        ("take-of-map-with-closure", call("take", call(lam(["k"], call("map", ints, lam(["x"], add(x, k)))), INT(7)), INT(2))),
+        ("same-lambda-applied-twice-with-different-values",
+         call(lam(["f"], add(call("call", call("call", f, INT(1)), INT(10)), call("call", call("call", f, INT(2)), INT(100)))),
+              lam(["a"], call("add-ints", a)))),
+    ]
+
+
 def run(ctx):
     rng = random.Random(ctx.seed)
     r = ctx.tlc("Requests", ctx.pick("Requests.cfg", "RequestsThorough.cfg"))
@@ -474,6 +510,20 @@ def run(ctx):
                 key = "%s:%s:%s" % (what, c["sym"], c["sig"])
             reported[key] = reported.get(key, 0) + 1
             ctx.fail(key, v.get("msg", ""), {"verdict": v, "case": c})
+    # ---- programs whose STRUCTURE stresses the VM's call machinery (closures, partial applications made outside a
+    # lambda and completed inside it, several-step partials, argument-less lambdas, lambdas run by map and
+    # map-parallel with a variable of an enclosing lambda): one request each, through the same handler
+    cases = [{"id": i, "expr": e, "sym": "vm-structure", "sig": name, "allowed": allowed, "cores": 2 + (i % 2) * 2}
+             for i, (name, e) in enumerate(structure_programs())]
+    vs = ctx.run_cases(binary, "req", cases, timeout_ms=timeout_ms, name="req-structure")
+    for v in vs:
+        ctx.evaluations += 1
+        c = cases[v["id"]]
+        ctx.distinct_cases.add("vm-structure " + c["sig"])
+        what = failure_of(v)
+        if what is not None:
+            ctx.fail("%s:vm-structure:%s" % (what, c["sig"]), v.get("msg", ""), {"verdict": v, "case": c})
+    ctx.extra_cov["structure_programs"] = len(cases)
     ctx.extra_cov["request_shapes"] = len(shapes)
     ctx.extra_cov["functions_registered"] = len(sigs)
     ctx.extra_cov["functions_called"] = len(called)
